@@ -60,8 +60,96 @@ def _widths(ctx):
     return res
 
 
+# API surface of the types C13 is about (translate/image_api.py lists it from src/image.rs on every run; an item that is
+# not in this table, or an item of this table that is gone, is reported as a broken obligation).  Status:
+#   history  called by the operation programs of harness/src/c13.rs inside multi-step histories
+#   layout   data layout the models are written against (types of the accumulators: translate/octree_types.py)
+#   out      not part of colour quantisation; the property that covers it, or the reason it is left out
+_H, _L, _O = 'history', 'layout', 'out'
+API = {
+ 'Image derives Clone': (_H, 'QNT ctor=1: crop -> clone -> quantize (twice)'),
+ 'Image.data: Arc<[RGBA]>': (_L, 'img = rows of rgba; the shared buffer under crops: gen_qnt_small_crop'),
+ 'Image.shape: Shape': (_L, 'C07 Shape model (SixelView.crop_is_view_rows)'),
+ 'Image::new': (_H, 'QNT ctor=2'),
+ 'Image::from_parts': (_H, 'every QNT / PAL case'),
+ 'Image::crop': (_H, 'QNT crop (small crops of large parents), then the other constructors on top'),
+ 'Image::resize': (_O, 'resampling is not quantisation (no property of the 20 is about it)'),
+ 'Image::size_cells': (_O, 'cell geometry (C01 renderer)'),
+ 'Image::quantize': (_H, 'every QNT case; called twice on one Image when another constructor was used'),
+ 'Image::write_png': (_O, 'png encoder of another crate'),
+ 'Image::ascii_view': (_O, 'debug view'),
+ 'impl PartialEq for Image {eq}': (_O, 'C11 (content hash / equality)'),
+ 'impl Eq for Image {}': (_O, 'C11'),
+ 'impl PartialOrd for Image {partial_cmp}': (_O, 'C11'),
+ 'impl Ord for Image {cmp}': (_O, 'C11'),
+ 'impl std::hash::Hash for Image {hash}': (_O, 'C11; as cache key: C12 histories'),
+ 'impl fmt::Debug for Image {fmt}': (_O, 'debug output'),
+ 'impl Surface for Image {shape, data}': (_H, 'read by from_image / quantize through view(..) and transpose() (PAL) and crops (QNT)'),
+ 'impl From<SurfaceOwned<RGBA>> for Image {from}': (_H, 'QNT ctor=3'),
+ 'impl View for Image {render, layout}': (_O, 'C01 renderer'),
+ "impl Deserialize<'de> for Image {deserialize}": (_O, 'serde format, no property'),
+ 'impl Serialize for Image {serialize}': (_O, 'serde format, no property'),
+ 'ColorError derives Clone': (_L, ''), 'ColorError derives Copy': (_L, ''),
+ 'ColorError([f32; 3])': (_L, 'Z sixteenths in Quantize.v; dithered QNT cases'),
+ 'impl Add<Self> for ColorError {add}': (_H, 'dithered QNT cases'),
+ 'impl AddAssign for ColorError {add_assign}': (_H, 'dithered QNT cases'),
+ 'impl Mul<f32> for ColorError {mul}': (_H, 'dithered QNT cases'),
+ 'OcTreeLeaf derives Debug': (_L, ''), 'OcTreeLeaf derives Clone': (_L, ''), 'OcTreeLeaf derives Copy': (_L, ''),
+ 'OcTreeLeaf.red_acc: usize': (_L, 'octree_types.py'), 'OcTreeLeaf.green_acc: usize': (_L, 'octree_types.py'),
+ 'OcTreeLeaf.blue_acc: usize': (_L, 'octree_types.py'), 'OcTreeLeaf.color_count: usize': (_L, 'octree_types.py'),
+ 'OcTreeLeaf.index: usize': (_L, 'OCT OFindIdx after OPalette'),
+ 'impl AddAssign<RGBA> for OcTreeLeaf {add_assign}': (_H, 'OCT inserts of repeated colours'),
+ 'impl AddAssign<OcTreeLeaf> for OcTreeLeaf {add_assign}': (_H, 'OCT prune'),
+ 'OcTreeNode derives Debug': (_L, ''), 'OcTreeNode derives Clone': (_H, 'OCT clone op'),
+ 'OcTreeNode::Leaf(OcTreeLeaf)': (_L, 'Octree.node'), 'OcTreeNode::Tree(Box<OcTree>)': (_L, 'Octree.node'),
+ 'OcTreeNode::Empty': (_L, 'Octree.node'),
+ 'OcTreeNode::is_empty': (_H, 'OCT prune'),
+ 'OcTreeInfo derives Debug': (_L, ''), 'OcTreeInfo derives Clone': (_L, ''), 'OcTreeInfo derives Copy': (_L, ''),
+ 'OcTreeInfo derives PartialEq': (_L, ''), 'OcTreeInfo derives Eq': (_L, ''),
+ 'OcTreeInfo.leaf_count: usize': (_L, 'octree_types.py; digraph dumps'), 'OcTreeInfo.color_count: usize': (_L, 'octree_types.py'),
+ 'OcTreeInfo.min_color_count: Option<usize>': (_L, 'octree_types.py; digraph dumps'),
+ 'OcTreeInfo::empty': (_H, 'OCT'), 'OcTreeInfo::join': (_H, 'OCT (every node_update)'),
+ 'OcTree derives Debug': (_L, ''), 'OcTree derives Clone': (_H, 'OCT clone op: the history goes on with the copy'),
+ 'OcTree.info: OcTreeInfo': (_L, 'Octree.octree'), 'OcTree.removed: OcTreeLeaf': (_L, 'Octree.octree'),
+ 'OcTree.children: [OcTreeNode; 8]': (_L, 'Octree.octree'),
+ 'impl Default for OcTree {default}': (_H, 'OCT op n'),
+ 'impl Extend<RGBA> for OcTree {extend}': (_H, 'OCT op e (= the inserts in the model)'),
+ 'impl FromIterator<RGBA> for OcTree {from_iter}': (_H, 'OCT op x (a new tree, then the inserts)'),
+ 'OcTree::new': (_H, 'OCT'), 'OcTree::find': (_H, 'OCT ops f: colour anywhere, index directly after build_palette'),
+ 'OcTree::build_palette': (_H, 'OCT op b, several per history'), 'OcTree::insert': (_H, 'OCT op i, before and after pruning'),
+ 'OcTree::prune_until': (_H, 'OCT op u'), 'OcTree::prune': (_H, 'OCT op p'),
+ 'OcTree::to_digraph': (_H, 'OCT op d: the whole tree incl. cached infos after any operation'),
+ 'OcTreePath.rgba: RGBA': (_L, ''), 'OcTreePath.state: u32': (_L, 'OctreePath.v packed path'), 'OcTreePath.length: u8': (_L, ''),
+ 'OcTreePath::new': (_H, 'every insert / find'), 'OcTreePath::rgba': (_O, 'accessor, unused by the crate'),
+ 'impl Iterator for OcTreePath {next}': (_H, 'every insert / find'),
+ 'KDTree.nodes: Vec<KDNode>': (_L, 'KDTree.v'),
+ 'KDNode derives Debug': (_L, ''), 'KDNode derives Clone': (_L, ''), 'KDNode derives Copy': (_L, ''),
+ 'KDNode.color: [u8; 3]': (_L, 'octree_types.py'), 'KDNode.color_index: usize': (_L, ''), 'KDNode.dim: usize': (_L, ''),
+ 'KDNode.left: Option<usize>': (_L, ''), 'KDNode.right: Option<usize>': (_L, ''),
+ 'KDTree::new': (_H, 'KD / KDN through ColorPalette::new'), 'KDTree::find': (_H, 'KD / KDN: many queries on one tree'),
+ 'KDTree::to_digraph': (_O, 'debug dump; the tree is observed through find on every query class'),
+ 'ColorPalette.colors: Vec<RGBA>': (_L, ''), 'ColorPalette.kdtree: KDTree': (_L, ''),
+ 'ColorPalette::new': (_H, 'KD / KDN, incl. the empty list'), 'ColorPalette::from_image': (_H, 'PAL (views, transposed views), QNT'),
+ 'ColorPalette::size': (_H, 'KDN'), 'ColorPalette::get': (_H, 'KDN (every index)'), 'ColorPalette::colors': (_H, 'KDN, QNT, PAL'),
+ 'ColorPalette::find': (_H, 'KD / KDN interleaved with find_naive'), 'ColorPalette::find_naive': (_H, 'KDN'),
+}
+C13_TYPES = ['Image', 'ColorPalette', 'KDTree', 'KDNode', 'OcTree', 'OcTreeNode', 'OcTreeInfo', 'OcTreeLeaf', 'OcTreePath', 'ColorError']
+
+
+def _load_api():
+    import importlib.util
+    here = os.path.dirname(os.path.dirname(os.path.abspath(__file__)))
+    spec = importlib.util.spec_from_file_location('image_api', os.path.join(here, 'translate', 'image_api.py'))
+    mod = importlib.util.module_from_spec(spec)
+    spec.loader.exec_module(mod)
+    return mod
+
+
+_api_surface = _load_api().hook('C13', C13_TYPES, API)
+
+
 PROP = {'gen': ['octree'],
- 'extra': [_widths],
+ 'extra': [_widths, _api_surface],
  'coq_props': ['theories/Props/C13.vo'],
  'coq_corr': ['theories/Corr/C13Corr.vo'],
  'props_file': 'theories/Props/C13.v',
